@@ -285,7 +285,22 @@ fn emit_case(out: &mut impl Write, st: &mut Stats, cid: &str, lc: &LangCtx, pars
         if enc_edits.is_empty() { "-".to_string() } else { enc_edits.join("|") }
     );
     let mut cur = text.to_vec();
-    let mut tree = match parse_budgeted(parser, text, None) {
+    {
+        let mut fin = text.to_vec();
+        for te in edits {
+            if te.start > te.old_end || te.old_end > fin.len() {
+                break;
+            }
+            fin = te.apply(&fin);
+        }
+        if scanner_hazard(&lc.id, text, kind) || scanner_hazard(&lc.id, &fin, kind) {
+            return;
+        }
+    }
+    guard_begin(&spec);
+    let parsed = parse_budgeted(parser, text, None);
+    guard_end();
+    let mut tree = match parsed {
         Some(t) => t,
         None => return,
     };
@@ -298,7 +313,10 @@ fn emit_case(out: &mut impl Write, st: &mut Stats, cid: &str, lc: &LangCtx, pars
             tree.edit(&te.input_edit(&cur, &new));
             cur = new;
         }
-        tree = match parse_budgeted(parser, &cur, Some(&tree)) {
+        guard_begin(&spec);
+        let reparsed = parse_budgeted(parser, &cur, Some(&tree));
+        guard_end();
+        tree = match reparsed {
             Some(t) => t,
             None => return,
         };
@@ -377,8 +395,54 @@ fn parse_spec(line: &str) -> Option<(String, Vec<u8>, Vec<TextEdit>)> {
     Some((parts[0].to_string(), text, edits))
 }
 
+/// Two fixture scanners (copied from /repo/test/fixtures) loop forever at EOF inside an
+/// unterminated construct (`while (lexer->lookahead != '\'') advance` / `for(;;)` until the closing
+/// delimiter).  That is user code, not the runtime: documents of those languages that contain the
+/// opening character are only explored when they are unmodified grammar-generated sentences.
+fn scanner_hazard(lang: &str, text: &[u8], kind: &str) -> bool {
+    let ch = match lang {
+        "fx_external_and_internal_tokens" => b'\'',
+        "fx_external_tokens" => b'%',
+        _ => return false,
+    };
+    kind != "sentence" && text.contains(&ch)
+}
+
+static PARSE_STARTED: std::sync::atomic::AtomicU64 = std::sync::atomic::AtomicU64::new(0);
+static CURRENT_SPEC: std::sync::Mutex<String> = std::sync::Mutex::new(String::new());
+
+fn now_secs() -> u64 {
+    std::time::SystemTime::now().duration_since(std::time::UNIX_EPOCH).map(|d| d.as_secs()).unwrap_or(0)
+}
+
+/// Wall-clock guard for what the operation budget cannot see (a loop that never reaches the
+/// progress callback): a parse running longer than the limit aborts the explorer with the input.
+fn start_watchdog(limit_secs: u64) {
+    std::thread::spawn(move || loop {
+        std::thread::sleep(std::time::Duration::from_secs(1));
+        let t0 = PARSE_STARTED.load(std::sync::atomic::Ordering::Relaxed);
+        if t0 != 0 && now_secs().saturating_sub(t0) > limit_secs {
+            let spec = CURRENT_SPEC.lock().map(|s| s.clone()).unwrap_or_default();
+            eprintln!("PARSE-TIMEOUT after {limit_secs}s spec={spec}");
+            std::process::exit(3);
+        }
+    });
+}
+
+fn guard_begin(spec: &str) {
+    if let Ok(mut s) = CURRENT_SPEC.lock() {
+        *s = spec.to_string();
+    }
+    PARSE_STARTED.store(now_secs(), std::sync::atomic::Ordering::Relaxed);
+}
+
+fn guard_end() {
+    PARSE_STARTED.store(0, std::sync::atomic::Ordering::Relaxed);
+}
+
 fn main() {
     limit_resources();
+    start_watchdog(if tier_is_thorough() { 300 } else { 60 });
     let args: Vec<String> = std::env::args().collect();
     let out_path = args.get(1).expect("usage: c06 <ops-file> --langdump <exe> [--spec file] [lang...]").clone();
     let mut out = std::io::BufWriter::new(std::fs::File::create(&out_path).unwrap());
